@@ -86,8 +86,12 @@ func (l *CompiledLoader) SaveCompiled(engine *Engine, name string) error {
 		return fmt.Errorf("failed to create directory: %w", err)
 	}
 
-	// Save the compiled template
+	// Save the compiled template. A name with directories in it ("emails/welcome.twig",
+	// as the filesystem loader serves them) needs those below the target directory
 	filePath := filepath.Join(l.directory, name+l.fileExtension)
+	if err := os.MkdirAll(filepath.Dir(filePath), 0755); err != nil {
+		return fmt.Errorf("failed to create directory: %w", err)
+	}
 	if err := os.WriteFile(filePath, data, 0644); err != nil {
 		return fmt.Errorf("failed to write compiled template file: %w", err)
 	}
